@@ -7,6 +7,7 @@ mod r_iseq;
 mod r_iter;
 mod r_mm;
 mod r_pp;
+mod rec_cost;
 mod util;
 
 use serde_json::Value;
@@ -109,6 +110,10 @@ fn main() {
             let vs = read_ndjson(args.val("--in").expect("--in"));
             let tmp = args.val("--tmp").unwrap_or("/tmp/verif-iso").to_string();
             r_guard::replay(&vs, &rep, threads, seed, &tmp, args.num("--lifts", 3) as usize);
+        }
+        "record-cost" => {
+            let n = rec_cost::record(args.val("--trace").expect("--trace"), args.num("--max-log2", 16) as u32, seed, args.val("--force").unwrap_or("avx2"));
+            rep.count("records", n);
         }
         "replay-iter" => {
             let vs = read_ndjson(args.val("--in").expect("--in"));
